@@ -1,9 +1,10 @@
 ------------------------------ MODULE MCCheng ------------------------------
 (* Prints the Cheng BB / BC anchors of ChengTable as cases for the harness *)
-EXTENDS ChengTable, Sequences, Integers, TLC, Json
+EXTENDS ChengTable, Sequences, Integers, TLC, Json, IOUtils
+TT == IF "TIER" \in DOMAIN IOEnv /\ IOEnv.TIER = "thorough" THEN CTabT ELSE CTab
 VARIABLE c
 Init == c = 0
-Next == /\ c < Len(CTab) /\ c' = c + 1
-        /\ PrintT(<<"CASE", ToJson([kernel |-> "cheng", id |-> CTab[c'].id, a |-> CTab[c'].a, b |-> CTab[c'].b, js |-> [i \in 1..Len(CTab[c'].us) |-> CTab[c'].us[i].j]])>>)
+Next == /\ c < Len(TT) /\ c' = c + 1
+        /\ PrintT(<<"CASE", ToJson([kernel |-> "cheng", id |-> TT[c'].id, sh |-> TT[c'].sh, a |-> TT[c'].a, b |-> TT[c'].b, js |-> [i \in 1..Len(TT[c'].us) |-> TT[c'].us[i].j]])>>)
 Spec == Init /\ [][Next]_c
 =============================================================================
